@@ -644,6 +644,12 @@ class Life:
                 d.io.input_grammar.defaults[name] = new[name]
                 self.flags.add("rebound_default")
         elif kind == "approx":
+            if self.rec.stateful and self.p["cache"] == "HDF5":
+                # History-dependent processes (warm-started, loosely converged MDAs) sharing one HDF5 file: the restored
+                # object is served the perturbed points that the original computed with its own warm-start state, so
+                # approximated Jacobians differ by noise / step (1.5e-7 found by the thorough tier at seed 5). Not drawn.
+                self.flags.add("fd_mode_skipped_for_stateful_process_on_a_shared_file")
+                return
             d.set_jacobian_approximation(jax_approx_step=1e-6)
             self.flags.add("fd_mode")
         elif kind == "scenario":
